@@ -97,7 +97,43 @@ def _patch_ret(case, failure):
     return not (has_ret and has_caller)
 
 
+def _stale_returns(case, failure):
+    """Signature of C03-stale-return-edges (three call-site shapes)."""
+    exp = Lm.Expected(case)
+    # (i) a wholly deleted block that ends in a direct call to one of its own labels
+    for g in exp.deleted_blocks:
+        b = case.blocks[g]
+        if b.code and b.units[-1].kind == "call" and b.units[-1].sym in (b.labels + b.end_labels):
+            return True
+    # (ii) the target block of a direct call is deleted with retarget_to_proxy
+    #      while its function keeps other blocks
+    targets = set()
+    for insns in exp.insns:
+        for e in insns:
+            if e.unit.kind == "call" and e.unit.sym in case.label_block:
+                targets.add(case.label_block[e.unit.sym][0])
+    for g in exp.proxy_blocks & targets:
+        f = case.blocks[g].func
+        if f and any(gg not in exp.deleted_blocks for gg in case.funcs[f]):
+            return True
+    # (iii) a replace that removes a call into the host's function and inserts a ret
+    for ed in case.edits:
+        if ed.op != "replace":
+            continue
+        host = case.blocks[ed.b]
+        if not host.func:
+            continue
+        removed = host.units[ed.i:ed.i + ed.n]
+        calls_f = any(u.kind == "call" and u.sym in case.label_block
+                      and case.blocks[case.label_block[u.sym][0]].func == host.func for u in removed)
+        items, _ = case.patch_units(ed)
+        if calls_f and any(isinstance(x, Lm.Unit) and x.kind == "ret" for x in items):
+            return True
+    return False
+
+
 KNOWN = {
+    "C03-stale-return-edges": _stale_returns,
     "C03-no-fallthrough-created": _no_fallthrough_created,
     "C03-patch-ret-return-edges": _patch_ret,
     "C02-trailing-patch-label-at-block-end": lambda case, failure: Lm.trailing_label_then_insert(case),
@@ -192,20 +228,29 @@ def evaluate(spec):
             if not tgt or tgt[0] != "pos":
                 continue
             f = func_at[tgt[1]].get(tgt[2])
+            nxt = insns[k + 1] if k + 1 < len(insns) else None
+            site = (si, nxt.pos) if (nxt is not None and nxt.unit.kind != "data") else None
+            # a call whose target label slid (its own block was deleted) may or
+            # may not count for the function the label used to be in / is in now
+            slid = u.sym in case.label_block and case.label_block[u.sym][0] in exp.deleted_blocks
+            if slid:
+                oldf = case.blocks[case.label_block[u.sym][0]].func
+                for ff in (oldf, f):
+                    if ff is not None:
+                        opt_sites.setdefault(ff, set()).add(site or (si, e.pos + len(u.data)))
+                continue
             if f is None:
                 continue
-            nxt = insns[k + 1] if k + 1 < len(insns) else None
-            if nxt is None or nxt.unit.kind == "data":
+            if site is None:
                 # nothing/data follows the call: a zero-sized block kept at
                 # that position (Deletion.md) may remain a return target
                 opt_sites.setdefault(f, set()).add((si, e.pos + len(u.data)))
-            if nxt is not None and nxt.unit.kind != "data":
+            elif u.sym in exp.patch_labels:
                 # a call to a label defined inside a patch ("call .L; .L:") may
                 # or may not count as a call into the enclosing function
-                # ... and so may a call whose target label slid onto the
-                # function because the label's own block was deleted
-                slid = u.sym in case.label_block and case.label_block[u.sym][0] in exp.deleted_blocks
-                (opt_sites if (u.sym in exp.patch_labels or slid) else sites).setdefault(f, set()).add((si, nxt.pos))
+                opt_sites.setdefault(f, set()).add(site)
+            else:
+                sites.setdefault(f, set()).add(site)
     case_edit_block = {ed.reg: ed.b for ed in case.edits}
 
     def data_gap(u, v):
@@ -216,6 +261,7 @@ def evaluate(spec):
             return False
         a, b = u.origin[1], v.origin[1]
         return any(not case.blocks[g].code for g in range(a + 1, b))
+
     # ---- per instruction ---------------------------------------------------
     for si, insns in enumerate(exp.insns):
         cbs = per_sec[si]
@@ -292,8 +338,17 @@ def evaluate(spec):
             ret = by_type.pop(ET.Return, [])
             if u.kind == "ret":
                 want_sites = sites.get(u.func, set()) if u.func else set()
-                optional = opt_sites.get(u.func, set()) if u.func else set()
+                optional = set(opt_sites.get(u.func, set())) if u.func else set()
                 got_blocks = [x.target for x in ret]
+                # a return site that was the start of a block deleted with
+                # retarget_to_proxy: the return edge goes to the proxy (Deletion.md)
+                proxied = {w for w in want_sites if w in proxy_starts}
+                if proxied:
+                    want_sites = want_sites - proxied
+                    optional |= proxied
+                    got_blocks = [b for b in got_blocks if not isinstance(b, gtirb.ProxyBlock)]
+                    if not want_sites and not got_blocks:
+                        continue
                 gp = {obs.block_pos(b) for b in got_blocks if not isinstance(b, gtirb.ProxyBlock)}
                 if optional and gp and gp <= (want_sites | optional) and want_sites <= gp \
                         and not any(isinstance(b, gtirb.ProxyBlock) for b in got_blocks):
